@@ -48,3 +48,9 @@ claim("C02",
   "For each generated layout the load must succeed, every reachable reference must carry a value, that value must be the object (identified by its unique marker) which an RFC 3986 / RFC 6901 walk over the raw files designates from the file that textually contains the reference, and its serialisation must equal the raw target. One reachable reference redirected to a missing name, file or pointer must make the load fail. Loads run under the watchdog (termination). Sampled; graph features are counted in the evidence.",
   "Trusted: internal/fsgen.Resolve (about 70 lines), the marker bookkeeping (which file contains which object). RefPath() values are not asserted. URL (http) targets only through the reader override.",
   "DESIGN.md#c02")
+
+claim("C11",
+  "property-based testing with an I/O-trace invariant: hostile reference forms planted at every Reference Object position of a base document (form x position x entry point enumerated completely) and of docgen documents, loaded with the switch off behind a logging in-memory reader that serves a valid decoy for every non-root URL; with the switch on, fsgen multi-file layouts whose read log must lie inside the reference closure computed by an independent resolver",
+  "Switch off: the read log must contain nothing but the root location (nothing at all for LoadFromData / LoadFromDataWithPath, whose root bytes are supplied by the caller). Switch on: every logged location must be designated by a reference of a document already read, resolved against that document's own location. Because a decoy is served, a leak shows as a logged read rather than as an error.",
+  "Trusted: observation at Loader.ReadFromURIFunc (reads that bypassed Loader.readURL would be invisible; the code has exactly one call site, readURL). The closure comes from internal/fsgen.Resolve.",
+  "DESIGN.md#c11")
